@@ -95,6 +95,14 @@ class Check(PropertyCheck):
             jobs = [job_z, job_x, [([mb], rng.randint(5, 12))]]
             rng.shuffle(jobs)
             family = "flex_blocked"
+        elif search and rng.random() < (0.3 if getattr(self, "in_search", False) else 0.06):
+            # a short single-operation first job (finished early), a flexible first operation of the last job, the other
+            # operations competing for two machines
+            jobs = [[([rng.randrange(2)], rng.randint(1, 4))],
+                    [([rng.randrange(4)], rng.randint(1, 6)), ([rng.randrange(2)], rng.randint(1, 3))],
+                    [(rng.sample(range(4), 2), rng.randint(1, 6))] +
+                    [([rng.randrange(2)], rng.randint(1, 4)) for _ in range(rng.randint(2, 3))]]
+            family = "flex_finished_job"
         elif search:
             family, jobs = gen.gen_instance(rng, fam, max_jobs=3, max_machines=3, max_ops=3, max_dur=5)
             if gen.num_ops(jobs) > 7 and gen.is_flexible(jobs):
